@@ -46,6 +46,11 @@ func SleepContext(ctx context.Context, d time.Duration) error {
 		t.Stop()
 		return ctx.Err()
 	case <-t.C:
+		// select picks at random among the arms that are ready, so ctx may have ended first even
+		// though this arm was chosen.
+		if err := ctx.Err(); err != nil {
+			return err
+		}
 		return nil
 	}
 }
